@@ -3,6 +3,7 @@ package rules
 import (
 	"fmt"
 	"go/constant"
+	"go/token"
 	"go/types"
 	"sort"
 	"strings"
@@ -82,6 +83,10 @@ func (c *Ctx) c17IndexAgreement() {
 	c.c17OwnerFromRecord()
 	r.Rule("R17.11", "a reverse index follows its list: a function that stores a list of ids under a key of the owner (SetObject(ListKey(owner), ids)) and, for every id of the new list, a reverse entry (SetObject(EntryKey(id), owner)) also deletes the reverse entries of the ids of the list stored before (Delete(EntryKey(old)) for the elements loaded under the same ListKey(owner)), and reads that old list before it overwrites it. The reverse entry is what a permission check consults (appchain admin -> chain: PermissionSelf of the appchain manager); an id that is dropped from the list but keeps its entry keeps the permission.")
 	c.c17ReverseIndex()
+	r.Rule("R17.12", "an index answers for the owner it is asked about: RoleManager.GetAppchainAdmin, whose answer the chain-admin permission checks of the service / rule / appchain managers rely on, appends a role found through the chain's admin index to its result only behind the comparison of the role's AppchainID with the chain asked for. The index is a list of addresses; the role record behind an address may by now belong to another chain (the address was replaced here and registered there) - without the comparison the former admin passes the permission checks of this chain again.")
+	c.c17IndexScope()
+	r.Rule("R17.13", "locking stays inside one manager: object ids of different managers share the namespace of the proposal index (obj-<id>), so when SubmitProposal pauses lower-priority proposals of 'the same object', the status change to PAUSED lies behind a comparison of the found proposal's type with the type of the submitting manager; otherwise any account that may submit some proposal with a chosen id (RegisterAppchain with the id of somebody's dapp) pauses that object's open proposal.")
+	c.c17LockScope()
 	type site struct {
 		idx, ctor, pos, fn string
 	}
@@ -382,4 +387,76 @@ func (c *Ctx) c17SelfOnCreate() {
 		}
 	}
 	r.Floor("R17.8", "guard sites offering a direct self permission", n, 1)
+}
+
+// c17IndexScope: R17.12.
+func (c *Ctx) c17IndexScope() {
+	r := c.R
+	fn := c.fn("R17.12", "internal/executor/contracts.(*RoleManager).GetAppchainAdmin")
+	if fn == nil || len(fn.Params) < 2 {
+		return
+	}
+	asked := ssa.Value(fn.Params[1])
+	same := core.EqualityEdges(fn, func(v ssa.Value) bool { return v == asked }, fieldLoad("Role", "AppchainID"), true)
+	isAppend := appendsWhere(func(dst ssa.Value) bool { return strings.Contains(dst.Type().String(), "contracts.Role") })
+	n := c.behindEdges("R17.12", "GetAppchainAdmin", fn, same, isAppend, "role.AppchainID == the chain asked for", "role added to the answer")
+	r.Floor("R17.12", "roles added to the answer of GetAppchainAdmin", n, 1)
+}
+
+// c17LockScope: R17.13.
+func (c *Ctx) c17LockScope() {
+	r := c.R
+	sp := c.fn("R17.13", "internal/executor/contracts.(*Governance).SubmitProposal")
+	lk := c.fn("R17.13", "internal/executor/contracts.(*Governance).lockLowPriorityProposal")
+	chg := c.fn("R17.13", "internal/executor/contracts.(*Governance).changeProposalStatus")
+	if sp == nil || lk == nil || chg == nil {
+		return
+	}
+	isPause := func(in ssa.Instruction) bool {
+		call, ok := in.(ssa.CallInstruction)
+		if !ok || core.StaticCallee(call) != chg || len(call.Common().Args) < 3 {
+			return false
+		}
+		return enumName(call.Common().Args[2]) == "PAUSED" || strings.HasSuffix(enumName(call.Common().Args[2]), "PAUSED")
+	}
+	// the comparison of the found proposal's type with a type the caller handed in
+	typed := condEdges(lk, func(f core.Fact, ifi *ssa.If) (bool, int) {
+		if f.Kind != core.FCmp || f.Op != token.EQL && f.Op != token.NEQ {
+			return false, 0
+		}
+		isTyp := func(v ssa.Value) bool { _, fld, _, ok := core.FieldOf(v); return ok && fld == "Typ" }
+		isPar := func(v ssa.Value) bool { _, ok := core.Strip(v).(*ssa.Parameter); return ok }
+		if isTyp(f.Subject) && isPar(f.Other) || isTyp(f.Other) && isPar(f.Subject) {
+			return true, holdsEdge(f)
+		}
+		return false, 0
+	})
+	// or the function is handed an empty type (the exported entry names the object itself): that edge counts too
+	anyType := condEdges(lk, func(f core.Fact, ifi *ssa.If) (bool, int) {
+		if f.Kind == core.FEqConst && f.Const == "" {
+			if _, ok := core.Strip(f.Subject).(*ssa.Parameter); ok {
+				return true, holdsEdge(f)
+			}
+		}
+		return false, 0
+	})
+	typed.Merge(anyType)
+	n := c.behindEdges("R17.13", "lockLowPriorityProposal", lk, typed, isPause, "proposal type == type of the submitting manager", "pause of a lower-priority proposal")
+	r.Floor("R17.13", "pauses in lockLowPriorityProposal", n, 1)
+	// SubmitProposal hands its own proposal type on
+	okArg := false
+	for _, call := range core.Calls(sp) {
+		if core.StaticCallee(call) != lk {
+			continue
+		}
+		for _, a := range call.Common().Args {
+			if core.Mentions(a, func(w ssa.Value) bool {
+				p, ok := w.(*ssa.Parameter)
+				return ok && p.Parent() == sp && p.Name() == "typ"
+			}) {
+				okArg = true
+			}
+		}
+	}
+	r.Check(okArg, "R17.13", "SubmitProposal: locks with its own proposal type", c.P.Pos(sp.Pos()), "lockLowPriorityProposal receives SubmitProposal's typ", "SubmitProposal does not restrict the lock to the submitting manager's proposal type")
 }
